@@ -58,6 +58,7 @@ RULES = [
     (("ImageConfiguration.MergeInto", ""), ("comm", "insert-if-absent on distinct keys")),
     (("ImageConfiguration.Summarize", ""), ("msg", "log only")),
     (("ParseArchitectures", "uniq"), ("sorted", "sort.Slice(archs)")),
+    (("indexVerificationMode", "keys"), ("sorted", "slices.Sort(names) on distinct key names before the mode string is built — C01 sort_perm_invariant (memo key only: never reaches an output)")),
     (("Context.WriteSupervisionTree", "services"), ("comm", "creates distinct paths")),
     (("SPDX.ProcessInternalApkSBOM", ""), ("perm-thm-partial", "C11.order_independent_partial: under not-F11d (at most one described element named like its apk per embedded SBOM) the generated document is the same for every map order; C11.order_dependent_multi_target is the witness otherwise (finding F11d)")),
     (("copySBOMElements", "todo"), ("comm", "set membership")),
